@@ -23,6 +23,9 @@ CHECKS = {
  "C20": dict(cat="exploration", technique="differential runtime oracle (independent RFC 7396 + algebraic laws) on MergeConfigAndUnmarshal; complete enumeration of the CNI-chain input product through the real mergeConfigList/switchDataPathV2/allowEBPFNetworkPolicy in-package (go test -overlay) under private netns/tmpfs",
      text="Merge: generated base/overlay documents over the Config schema are merged by terway and by an independent RFC 7396 implementation and compared after unmarshal; empty-overlay, idempotence and absent-key laws are asserted per case. Chain: the full product (plugin lists × kernel eBPF/EDT × policy provider × virtual type × AutoDataPathV2 × recorded capabilities × cilium_net link × network policy = 52 488 cases) is run through the real generator and each output is parsed and judged.",
      note="chain half runs inside cmd/terway-cli (package main) via -overlay with a private tmpfs on /run for the capabilities file and a veth named cilium_net in a private netns.", ref="§2 C20"),
+ "C15": dict(cat="exploration", technique="no-panic monitor over grammar-aware generated inputs in child processes (input logged before each call, recover + crash attribution) + exact bandwidth grammar oracle (big.Rat) with monotonicity",
+     text="Every user-writable field named by the property is driven with raw bytes, structured mutations of valid values and boundary numerics into the real entry points (daemon k8s layer, annotation parsers, NUMA-hint path through getENIIndex, both webhook handlers, config merge/validate/pool config, stored-record consumers incl. Local.load/GetIPInfo/ReleaseIP, helper converters, plugin getCmdArgs/parse*Conf in-package). A recovered panic or a crashed child is a violation; well-formed bandwidth values must be accepted with/without unit, equal floor(v*2^k) up to float64 rounding and be monotonic in the unit.",
+     note="Generators are grammar-aware, not coverage-guided; only anchored entry points are driven; 8 child processes per run.", ref="§2 C15"),
 }
 NOT_YET = {}
 
